@@ -579,6 +579,7 @@ def run(ctx):
     if tvh is None:
         ctx.violation("harness does not build against /repo", {"unchecked": "cargo build"}, concrete=False)
         return
+    regression_lines(ctx, tvh, ["c06"])
     trees = gen(ctx)
     # std's Display text of every float (an input of the model; validated on both sides: `fl`)
     fl = set()
